@@ -79,7 +79,9 @@ def partial_reoffer_rule(ctx: Ctx, rid: str):
                         if isinstance(part, ast.Compare):
                             tab = order_table(part, lambda x: isinstance(x, ast.Name) and x.id in rem_names,
                                               lambda x: "scheduleGranularity" in norm(x))
-                    if tab != {"<": True, "=": False, ">": False}:
+                    # remaining == slot length means the owner's record says it uses nothing of the slot: offering it again
+                    # cannot double-book, so `<=` is as good as `<` (the ledger, not the marker, is what C01 is about)
+                    if tab is None or tab["<"] is not True or tab[">"] is not False:
                         ok = False
                 ctx.ob(rid, f"{avail.qual}: occupied slot re-offered only after a partial release", (avail, n), ok,
                        "occupied slot passes only when remaining < slot length, otherwise it is refused" if ok else
@@ -376,8 +378,17 @@ def run(ctx: Ctx):
             continue
         ffacts = facts_of(fn)
         res = local_resolver(fn.node)
+        from .c12 import scenarios_processed_once
+        prep_only = fn.name == "initScoreboard" and scenarios_processed_once(ctx)
         for atoms, node, tgt in ws:
             val = node.ast.value if isinstance(node.ast, (ast.Assign, ast.AugAssign)) else None
+            # a fresh, empty ledger installed while the slot table is built: each scenario is prepared once, before its first
+            # booking (C12 R12.8), so nothing is dropped
+            if prep_only and isinstance(node.ast, ast.Assign) and norm(node.ast.targets[0]) == "self.slotSecondsUsed" \
+                    and isinstance(val, (ast.Dict, ast.Call)) and norm(val) in ("{}", "dict()"):
+                ctx.ob("R01.3", f"{fn.qual}: {norm(node.ast)[:70]}", (fn, node.ast), True,
+                       "empty ledger for a slot table that has no bookings yet (scenario prepared once)")
+                continue
             # raise-only idiom: guarded by `<ledger read> < <value>`
             raise_only = False
             if val is not None:
